@@ -38,6 +38,20 @@
 (* `beh` carries the calls of a behaviour; exported as JSON they are       *)
 (* replayed call by call on the real client + server (seq mode of the      *)
 (* driver), the recorded history is then judged by mon/MonPrim.            *)
+(*                                                                         *)
+(* TIME.  With ETicks # {} the clock moves: ETick(n, order) advances `now` *)
+(* by n seconds, and for every elapsed second fires the due timeouts and   *)
+(* the due expiries of LockEngine (FireTimeout / FireExpiry with their     *)
+(* wake passes) in the given order - exactly what the sweeps of the server *)
+(* do per second.  Every blocking call carries the timeout `eto`, every    *)
+(* hold the expiry `eex` (the two arguments each client primitive is       *)
+(* constructed with).  The callers' view follows the TEXTBOOK rule of      *)
+(* module Primitives (a hold ends with its expiry; a release / Set / Clear *)
+(* stays), and the invariants say that the engine agrees with it at every  *)
+(* second: long holds, holds that lapse while held, waits that time out,   *)
+(* waits granted after a long time in the queue.  Behaviours with ticks    *)
+(* are replayed on the real server under a virtual clock (driver           *)
+(* harness/inpkg/server/zz_verif_primv_test.go).                           *)
 (***************************************************************************)
 EXTENDS LockEngine, Primitives
 
@@ -51,29 +65,41 @@ CONSTANTS EKinds,      \* primitive kinds to explore
           EMaxSteps,   \* bound on the number of calls of a behaviour
           EMinExport,  \* behaviours of at least this many calls are exported (simulation mode)
           ETimeouts,   \* TRUE: a queued Event.Wait may time out (doTimeOut + its wake pass); FALSE for the replay generator
-          A24Fixed     \* TRUE: the wake pass does not grant a wait-when-unlocked request while the key is unlocked
+          A24Fixed,    \* TRUE: the wake pass does not grant a wait-when-unlocked request while the key is unlocked
                        \*       (fix 23dcb06); FALSE: the tree between 9ca40d3 and 23dcb06 - exhibits finding A24
+          ETOs,        \* timeouts (seconds) a behaviour's blocking calls may carry (one value per behaviour)
+          EEXs,        \* expiries (seconds) a behaviour's holds may carry (one value per behaviour)
+          ETicks,      \* lengths of the clock steps, {} = the clock stands still (the untimed configurations)
+          EMaxNow      \* clock bound
 
-VARIABLES ekind, en, pc, evs, bad, beh
-evars == <<ks, now, reqs, out, hist, turn, role, nrc, ekind, en, pc, evs, bad, beh>>
-eview == <<ks, ekind, en, pc, evs, bad>>
+VARIABLES ekind, en, pc, evs, bad, beh, eto, eex
+evars == <<ks, now, reqs, out, hist, turn, role, nrc, ekind, en, pc, evs, bad, beh, eto, eex>>
+eview == <<ks, now, ekind, en, pc, evs, bad, eto, eex>>
 
 EVLID == 99            \* Event: the LockId of the set/clear hold is the event key itself
-TO == 5                \* every blocking call waits (no timer fires in this model)
-EX == 5
+TO == eto              \* every blocking call waits this long; every hold lasts EX (timers fire in ETick only)
+EX == eex
 
 K == CHOOSE k \in Keys : TRUE
 S0 == ks[K]
 
-PC0 == [st |-> "idle", depth |-> 0, rl |-> "x", prio |-> 0, pend |-> 0, ops |-> 0, lid |-> 0, last |-> "none"]
+\* t: second of the last successful acquisition (it renews the hold), tc: second of the call in flight,
+\* lapsed: the last hold ended by its expiry (not by a release)
+\* stale: an RWLock READER hold of this process lapsed without RUnlock.  client/rwlock.go keeps the reader LockIds of one
+\* RWLock object in a FIFO that expiry does not prune, and RUnlock releases the OLDEST remembered id: after such a lapse the
+\* next RUnlock names the lapsed id (UNOWN_ERROR) and the live reader hold stays.  The textbook object has no counterpart
+\* of that state, so the programs explored here do not call RUnlock on such an object (named deviation RWStaleReader).
+PC0 == [st |-> "idle", depth |-> 0, rl |-> "x", prio |-> 0, pend |-> 0, ops |-> 0, lid |-> 0, last |-> "none",
+        t |-> 0, tc |-> 0, lapsed |-> FALSE, stale |-> FALSE]
 
 EInit == /\ ks = [k \in Keys |-> EmptyKey] /\ now = 0 /\ reqs = <<>> /\ out = <<>> /\ hist = <<>>
          /\ turn = "any" /\ role = "leader" /\ nrc = 0
          /\ ekind \in EKinds
          /\ en \in (IF ekind \in {"sem", "flow"} THEN ENs ELSE {1})       \* n matters for Semaphore / MaxConcurrentFlow only
          /\ pc = [p \in EProcs |-> PC0]
-         /\ evs = (ekind # "event_clear")          \* textbook event state: default-set starts set
+         /\ evs = [last |-> "none", t |-> 0]       \* textbook event: the last Set / Clear call and its second
          /\ bad = {} /\ beh = <<>>
+         /\ eto \in ETOs /\ eex \in EEXs
 
 IsEvent == ekind \in {"event_set", "event_clear"}
 
@@ -117,26 +143,38 @@ DoLockX(S, r, t, wul) ==
     ELSE DoLock(S, r, t)
 
 -----------------------------------------------------------------------------
-\* delivery of the replies of one critical section to the blocked callers
+\* delivery of the replies of one critical section (run at second t) to the blocked callers
 
-Deliver(P, O) ==
+\* a TIMEOUT answer to a call that has waited its whole timeout is what the caller asked for - not a refusal
+FullWait(P, q, o, t) == o.res = TIMEOUT /\ t - P[q].tc >= eto
+
+Deliver(P, O, t) ==
     [q \in EProcs |->
         IF P[q].pend = 0 THEN P[q]
         ELSE LET mine == SelectSeq(O, LAMBDA o : o.rid = P[q].pend)
              IN IF mine = <<>> THEN P[q]
                 ELSE IF mine[1].res = SUCCED
                 THEN IF IsEvent THEN [P[q] EXCEPT !.pend = 0, !.last = "ok"]                   \* Wait returned
-                     ELSE [P[q] EXCEPT !.pend = 0, !.st = "held", !.depth = @ + 1, !.last = "ok"]
-                ELSE [P[q] EXCEPT !.pend = 0, !.st = IF @ = "held" THEN "held" ELSE "idle", !.last = "fail"]]
+                     ELSE [P[q] EXCEPT !.pend = 0, !.st = "held", !.depth = @ + 1, !.last = "ok", !.t = t, !.lapsed = FALSE]
+                ELSE [P[q] EXCEPT !.pend = 0, !.st = IF @ = "held" THEN "held" ELSE "idle",
+                                  !.last = IF FullWait(P, q, mine[1], t) THEN "timeout" ELSE "fail"]]
 
-Refused(P, O) == {q \in EProcs : P[q].pend # 0 /\ \E j \in 1..Len(O) : O[j].rid = P[q].pend /\ O[j].res # SUCCED}
+Refused(P, O, t) == {q \in EProcs : P[q].pend # 0 /\ \E j \in 1..Len(O) : O[j].rid = P[q].pend /\ O[j].res # SUCCED
+                                                                          /\ ~FullWait(P, q, O[j], t)}
+
+\* the textbook rule of time on the callers' side: a hold ends with its expiry (the engine ends a hold taken at
+\* second t in its sweep of second t + ex + 1; Primitives!PrimLive / PrimGone bracket that second)
+ExpireView(P, t) ==
+    [q \in EProcs |-> IF P[q].st = "held" /\ t > P[q].t + eex
+                      THEN [P[q] EXCEPT !.st = "idle", !.depth = 0, !.lapsed = TRUE,
+                                        !.stale = @ \/ (ekind = "rw" /\ P[q].rl = "r")] ELSE P[q]]
 
 Common(res, r, step) ==
     /\ ks' = [ks EXCEPT ![K] = res.S]
     /\ out' = res.out
     /\ reqs' = Append(reqs, r)
     /\ beh' = Append(beh, step)
-    /\ UNCHANGED <<now, hist, turn, role, nrc, ekind, en>>
+    /\ UNCHANGED <<now, hist, turn, role, nrc, ekind, en, eto, eex>>
 
 AcqCall(p, rl, pr) ==
     /\ ~IsEvent /\ Len(beh) < EMaxSteps
@@ -149,26 +187,32 @@ AcqCall(p, rl, pr) ==
     /\ LET id  == Len(reqs) + 1
            r   == AcqReq(id, p, rl, pr)
            res == DoLockX(S0, r, now, FALSE)
-           P1  == [pc EXCEPT ![p] = [@ EXCEPT !.pend = id, !.ops = @ + 1, !.rl = rl, !.prio = pr, !.lid = r.lid]]
-       IN /\ Common(res, r, [op |-> "acq", p |-> p, role |-> rl, prio |-> pr])
-          /\ pc' = Deliver(P1, res.out)
-          /\ bad' = bad \cup {<<"acquire-refused", q>> : q \in Refused(P1, res.out)}
+           P1  == [pc EXCEPT ![p] = [@ EXCEPT !.pend = id, !.ops = @ + 1, !.rl = rl, !.prio = pr, !.lid = r.lid, !.tc = now]]
+       IN /\ Common(res, r, [op |-> "acq", p |-> p, role |-> rl, prio |-> pr, n |-> 0, order |-> ""])
+          /\ pc' = Deliver(P1, res.out, now)
+          /\ bad' = bad \cup {<<"acquire-refused", q>> : q \in Refused(P1, res.out, now)}
           /\ UNCHANGED evs
+
+\* Semaphore units are anonymous: Release (unlock-first) ends the OLDEST hold of the key, so the caller that
+\* releases hands the age of its own unit to the holder of the oldest one
+OldestHolder == CHOOSE q \in {x \in EProcs : pc[x].st = "held"} : \A y \in {x \in EProcs : pc[x].st = "held"} : pc[q].t <= pc[y].t
 
 RelCall(p) ==
     /\ ~IsEvent /\ Len(beh) < EMaxSteps
     /\ pc[p].pend = 0 /\ pc[p].st = "held"
+    /\ ~(ekind = "rw" /\ pc[p].rl = "r" /\ pc[p].stale)            \* RWStaleReader (see PC0)
     /\ LET id  == Len(reqs) + 1
            r   == RelReq(id, p)
            res == DoUnlock(S0, r, now)
            own == SelectSeq(res.out, LAMBDA o : o.rid = id)
            okk == own # <<>> /\ own[1].res = SUCCED
-           P1  == IF okk THEN [pc EXCEPT ![p] = [@ EXCEPT !.depth = @ - 1, !.st = IF pc[p].depth = 1 THEN "idle" ELSE "held"]]
+           P0  == IF ekind = "sem" THEN [pc EXCEPT ![OldestHolder].t = pc[p].t] ELSE pc
+           P1  == IF okk THEN [P0 EXCEPT ![p] = [@ EXCEPT !.depth = @ - 1, !.st = IF pc[p].depth = 1 THEN "idle" ELSE "held"]]
                   ELSE pc
-       IN /\ Common(res, r, [op |-> "rel", p |-> p, role |-> pc[p].rl, prio |-> pc[p].prio])
-          /\ pc' = Deliver(P1, res.out)
+       IN /\ Common(res, r, [op |-> "rel", p |-> p, role |-> pc[p].rl, prio |-> pc[p].prio, n |-> 0, order |-> ""])
+          /\ pc' = Deliver(P1, res.out, now)
           /\ bad' = bad \cup (IF okk THEN {} ELSE {<<"release-refused", p>>})
-                        \cup {<<"acquire-refused", q>> : q \in Refused(P1, res.out)}
+                        \cup {<<"acquire-refused", q>> : q \in Refused(P1, res.out, now)}
           /\ UNCHANGED evs
 
 \* Event (event.go).  The controller calls are complete client calls (Clear / Set treat the "already in that
@@ -186,9 +230,9 @@ EvCall(p, which) ==
            res  == IF hold THEN DoLockX(S0, r, now, FALSE) ELSE DoUnlock(S0, r, now)
            own  == SelectSeq(res.out, LAMBDA o : o.rid = id)
            okk  == own # <<>> /\ own[1].res \in (IF hold THEN {SUCCED, LOCKED_ERROR} ELSE {SUCCED, UNLOCK_ERROR})
-       IN /\ Common(res, r, [op |-> which, p |-> p, role |-> "x", prio |-> 0])
-          /\ pc' = Deliver([pc EXCEPT ![p].ops = @ + 1], res.out)
-          /\ evs' = (which = "set")
+       IN /\ Common(res, r, [op |-> which, p |-> p, role |-> "x", prio |-> 0, n |-> 0, order |-> ""])
+          /\ pc' = Deliver([pc EXCEPT ![p].ops = @ + 1], res.out, now)
+          /\ evs' = [last |-> which, t |-> now]
           /\ bad' = bad \cup (IF okk THEN {} ELSE {<<"event-call-refused", p>>})
 
 WaitCall(p) ==
@@ -197,13 +241,13 @@ WaitCall(p) ==
     /\ LET id  == Len(reqs) + 1
            r   == ReqRec(id, "L", K, FreshLid(id), IF ekind = "event_set" THEN 0 ELSE 1, 0, TO, 0, "")
            res == DoLockX(S0, r, now, ekind = "event_clear")
-           P1  == [pc EXCEPT ![p] = [@ EXCEPT !.pend = id, !.ops = @ + 1]]
-       IN /\ Common(res, r, [op |-> "wait", p |-> p, role |-> "x", prio |-> 0])
-          /\ pc' = Deliver(P1, res.out)
-          /\ bad' = bad \cup {<<"wait-refused", q>> : q \in Refused(P1, res.out)}
+           P1  == [pc EXCEPT ![p] = [@ EXCEPT !.pend = id, !.ops = @ + 1, !.tc = now]]
+       IN /\ Common(res, r, [op |-> "wait", p |-> p, role |-> "x", prio |-> 0, n |-> 0, order |-> ""])
+          /\ pc' = Deliver(P1, res.out, now)
+          /\ bad' = bad \cup {<<"wait-refused", q>> : q \in Refused(P1, res.out, now)}
           /\ UNCHANGED evs
 
-\* A queued Event.Wait times out (db.go doTimeOut): the request leaves the queue, is answered TIMEOUT, and the wake
+\* A queued request times out (db.go doTimeOut): the request leaves the queue, is answered TIMEOUT, and the wake
 \* pass runs (fix 9ca40d3).  wakeUpWaitLocks (fix 23dcb06, A24Fixed) stops at a head waiter that carries
 \* LOCK_WAIT_WHEN_UNLOCK while the key is unlocked - every default-clear Wait carries it.
 WaitTimeoutOp(S, i, t) ==
@@ -213,19 +257,59 @@ WaitTimeoutOp(S, i, t) ==
         o  == << [Reply(w.id, TIMEOUT, S2, w.lid) EXCEPT !.lrc = 0] >>
     IN IF A24Fixed /\ ekind = "event_clear" /\ Locked(S2) = 0 THEN [S |-> S2, out |-> o] ELSE WakePass(S2, t, o)
 
+\* untimed abstraction (ETimeouts): a queued Event.Wait may time out at any moment
 WaitTimeout(p) ==
     /\ ETimeouts /\ IsEvent /\ pc[p].pend # 0
     /\ \E i \in LiveIdx(S0.W) :
           /\ S0.W[i].id = pc[p].pend
           /\ LET res == WaitTimeoutOp(S0, i, now) IN
                 /\ ks' = [ks EXCEPT ![K] = res.S] /\ out' = res.out
-                /\ pc' = Deliver(pc, res.out)
-    /\ UNCHANGED <<now, reqs, hist, turn, role, nrc, ekind, en, evs, bad, beh>>
+                /\ pc' = Deliver(pc, res.out, now)
+    /\ UNCHANGED <<now, reqs, hist, turn, role, nrc, ekind, en, evs, bad, beh, eto, eex>>
+
+-----------------------------------------------------------------------------
+\* the clock.  One second = the timeout sweep and the expiry sweep of that second, each firing what is due, one
+\* critical section (with its wake pass) at a time; `order` says which sweep runs first ("te" / "et": the server
+\* runs them on two goroutines).  sp = [S, P, O, B]: key state, callers, replies of the step, refusals seen.
+
+RECURSIVE SweepTO(_, _), SweepEX(_, _), Seconds(_, _, _, _)
+SweepTO(sp, s) ==
+    LET D == {i \in LiveIdx(sp.S.W) : sp.S.W[i].tot <= s} IN
+    IF D = {} THEN sp
+    ELSE LET res == WaitTimeoutOp(sp.S, Min(D), s)
+         IN SweepTO([S |-> res.S, P |-> Deliver(sp.P, res.out, s), O |-> sp.O \o res.out,
+                     B |-> sp.B \cup {<<"acquire-refused", q>> : q \in Refused(sp.P, res.out, s)}], s)
+SweepEX(sp, s) ==
+    LET D == {i \in 1..Len(sp.S.H) : sp.S.H[i].next <= s} IN
+    IF D = {} THEN sp
+    ELSE LET res == FireExpiryOp(sp.S, Min(D), s)
+         IN SweepEX([S |-> res.S, P |-> Deliver(sp.P, res.out, s), O |-> sp.O \o res.out,
+                     B |-> sp.B \cup {<<"acquire-refused", q>> : q \in Refused(sp.P, res.out, s)}], s)
+\* (only the seconds in which something is due are visited: in the others both sweeps find nothing)
+DueSeconds(S, s, last) == {S.W[i].tot : i \in LiveIdx(S.W)} \cup {S.H[i].next : i \in 1..Len(S.H)}
+NextDue(S, s, last) == LET D == {d \in DueSeconds(S, s, last) : d <= last} IN IF D = {} THEN last + 1 ELSE Max({s, Min(D)})
+Seconds(sp, s, last, order) ==
+    LET d == NextDue(sp.S, s, last) IN
+    IF d > last THEN [sp EXCEPT !.P = ExpireView(@, last)]
+    ELSE LET a == IF order = "te" THEN SweepEX(SweepTO(sp, d), d) ELSE SweepTO(SweepEX(sp, d), d)
+         IN Seconds([a EXCEPT !.P = ExpireView(@, d)], d + 1, last, order)
+
+ETick(n, order) ==
+    /\ n \in ETicks /\ now + n <= EMaxNow /\ Len(beh) < EMaxSteps
+    \* generator mode only (behaviours are exported): two ticks in a row are one longer tick, a behaviour starts
+    \* with a call.  (Exhaustive mode: `beh` is outside the VIEW, so nothing there may depend on it.)
+    /\ EMinExport <= EMaxSteps => beh # <<>> /\ beh[Len(beh)].op # "tick"
+    /\ LET sp == Seconds([S |-> S0, P |-> pc, O |-> <<>>, B |-> {}], now + 1, now + n, order) IN
+          /\ ks' = [ks EXCEPT ![K] = sp.S] /\ out' = sp.O /\ pc' = sp.P /\ bad' = bad \cup sp.B
+          /\ now' = now + n
+          /\ beh' = Append(beh, [op |-> "tick", p |-> 0, role |-> "x", prio |-> 0, n |-> n, order |-> order])
+    /\ UNCHANGED <<reqs, hist, turn, role, nrc, ekind, en, evs, eto, eex>>
 
 EStep == \/ \E p \in EProcs : WaitTimeout(p)
          \/ \E p \in EProcs, rl \in {"x", "r", "w"}, pr \in EPrios \cup {0} : AcqCall(p, rl, pr)
          \/ \E p \in EProcs : RelCall(p) \/ WaitCall(p)
          \/ \E p \in EProcs, which \in {"set", "clear"} : EvCall(p, which)
+         \/ \E n \in ETicks, order \in {"te", "et"} : ETick(n, order)
 
 ESpec == EInit /\ [][EStep]_evars
 
@@ -237,25 +321,38 @@ HAbs == [p \in Held |-> [rl |-> pc[p].rl, depth |-> pc[p].depth]]
 HAbsOf(P) == [p \in {q \in EProcs : P[q].st = "held"} |-> [rl |-> P[p].rl, depth |-> P[p].depth]]
 Waiting(P) == {p \in EProcs : P[p].pend # 0}
 
+EvDefSet   == PrimEvDefSet(ekind, evs.last, evs.t, eex, now)
+EvDefClear == PrimEvDefClear(ekind, evs.last, evs.t, eex, now)
+
 \* C19 on the model -----------------------------------------------------------
 
 \* the holders the callers know about satisfy the textbook state predicate
 EncStateOK == PrimStateOK(ekind, en, HAbs)
 
-\* engine and callers agree on the number of outstanding units ("as many unlocks as locks")
+\* engine and callers agree on the number of outstanding units at every second ("as many unlocks as locks";
+\* a released unit is free again; a hold that lapsed gave its unit back)
 EncUnitsExact == ~IsEvent => Locked(S0) = PrimUnits(HAbs)
 
-\* no call of a textbook-legal program is refused (re-entry by the holder, release by a holder, set / clear)
+\* no call of a textbook-legal program is refused (re-entry by the holder, release by a holder whose hold has not
+\* lapsed, set / clear; a TIMEOUT after the whole timeout is not a refusal)
 EncNothingRefused == bad = {}
 
-\* a blocked acquire is never admissible at once by the permissive halves of the statement
+\* a blocked acquire is never admissible at once by the permissive halves of the statement, and nobody is blocked
+\* while the object is free for all of the blocked requests
 EncNoLostAdmission ==
-    ~IsEvent => \A p \in Waiting(pc) :
-        /\ ~PrimMustAdmit(ekind, p, pc[p].rl, HAbs, \E q \in Waiting(pc) \ {p} : pc[q].rl = "w")
-        /\ Held # {}                                   \* (model only: sequential atomicity has no pending wake pass)
+    ~IsEvent => /\ \A p \in Waiting(pc) :
+                    /\ ~PrimMustAdmit(ekind, p, pc[p].rl, HAbs, \E q \in Waiting(pc) \ {p} : pc[q].rl = "w")
+                    /\ Held # {}                                   \* (model only: sequential atomicity has no pending wake pass)
+                /\ ~PrimSomeoneMustBeAdmitted(ekind, en, {[g |-> p, rl |-> pc[p].rl] : p \in Waiting(pc)}, HAbs)
 
 \* Event.Wait is blocked only while the event is clear, i.e. it returns only once the event is set
-EncWaitBlockedOnlyWhenClear == IsEvent => (evs => Waiting(pc) = {})
+EncWaitBlockedOnlyWhenClear == IsEvent => (EvDefSet => Waiting(pc) = {})
+
+\* the two-sided textbook bracket of a hold's end (Primitives!PrimLive / PrimGone) contains the second in which
+\* the engine ends it: what the trace monitor may assume about a hold it cannot see
+EncLiveBracket ==
+    \A p \in EProcs : /\ pc[p].st = "held" => ~PrimGone(pc[p].t, eex, now)
+                      /\ pc[p].lapsed /\ pc[p].st = "idle" => ~PrimLive(pc[p].t, eex, now)
 
 \* every grant of a step is admissible by the textbook rule with respect to the other holders
 NewlyGranted == {p \in EProcs : pc'[p].depth > pc[p].depth}
@@ -270,17 +367,17 @@ EncHandOver ==
         \A p \in NewlyGranted :
             PrimHandOverOK(pc'[p].prio, {pc[q].prio : q \in (Waiting(pc) \cap Waiting(pc')) \ {p}})
 
-\* Event.Wait returns (SUCCED) only in a step after which the event is set
+\* Event.Wait returns (SUCCED) only in a step after which the event is not definitely clear
 EncWaitReturnsOnlyWhenSet ==
-    IsEvent => \A p \in EProcs : (pc[p].pend # 0 /\ pc'[p].pend = 0 /\ pc'[p].last = "ok") => evs'
+    IsEvent => \A p \in EProcs : (pc[p].pend # 0 /\ pc'[p].pend = 0 /\ pc'[p].last = "ok") => ~EvDefClear'
 EncWaitImmediateOnlyWhenSet ==
-    IsEvent => \A p \in EProcs : (pc[p].pend = 0 /\ pc'[p].ops > pc[p].ops /\ pc'[p].pend = 0 /\ pc'[p].last = "ok" /\ Len(beh') > Len(beh) /\ beh'[Len(beh')].op = "wait") => evs
+    IsEvent => \A p \in EProcs : (pc[p].pend = 0 /\ pc'[p].ops > pc[p].ops /\ pc'[p].pend = 0 /\ pc'[p].last = "ok" /\ Len(beh') > Len(beh) /\ beh'[Len(beh')].op = "wait") => ~EvDefClear
 
 EncActionProps == [][EncGrantAdmissible /\ EncHandOver /\ EncWaitReturnsOnlyWhenSet /\ EncWaitImmediateOnlyWhenSet]_evars
 
 -----------------------------------------------------------------------------
 \* behaviour export (simulation mode)
 
-EncExport == (Len(beh) >= EMinExport) => PrintT("BEHAVIOUR " \o ToJson([kind |-> ekind, n |-> en, steps |-> beh]))
+EncExport == (Len(beh) >= EMinExport) => PrintT("BEHAVIOUR " \o ToJson([kind |-> ekind, n |-> en, to |-> eto, ex |-> eex, steps |-> beh]))
 
 =============================================================================
